@@ -317,9 +317,29 @@ def trajectory_task(kind, kw, n_ages):
     return guarded(PROP, task, body)
 
 
-def estimate_task(kind, kw):
-    """BaseModel.estimate (dict route): exactly the requested ids in the given order, rows aligned with ages."""
-    task = f"estimate[{cfg_name(kind, kw)}]"
+_MI_AGES = {"subj-B": [71.5], "subj-A": [80.25, 62.0, 80.25]}  # MultiIndex route: concrete ages (they live in a pandas index), unsorted and repeated
+
+
+_MI_REPLAY = """
+import numpy as np, pandas as pd
+from leaspy.models import LogisticModel
+m = LogisticModel('logistic', features=['a', 'b'], source_dimension=1)
+m.load_parameters({'log_g_mean': [0.3, -0.2], 'log_v0_mean': [-3.0, -3.4], 'betas_mean': [[0.1]], 'tau_mean': 70.0, 'tau_std': 5.0, 'xi_mean': 0.0, 'xi_std': 0.5,
+                   'sources_mean': 0.0, 'sources_std': 1.0, 'noise_std': [0.1]})
+ips = {'subj-A': {'tau': 68.0, 'xi': 0.2, 'sources': [0.4]}, 'subj-B': {'tau': 75.0, 'xi': -0.3, 'sources': [-0.5]}}
+req = {'subj-B': [71.5], 'subj-A': [80.25, 62.0, 80.25]}
+pairs = [('subj-A', 80.25), ('subj-B', 71.5), ('subj-A', 62.0), ('subj-A', 80.25)]
+est = m.estimate(pd.MultiIndex.from_tuples(pairs, names=['ID', 'TIME']), ips, to_dataframe=False)
+ref = m.estimate(req, ips)
+bad = [k for k in req if np.asarray(est[k]).shape != np.asarray(ref[k]).shape or not np.allclose(est[k], ref[k])]
+print(bad, {k: np.asarray(v).shape for k, v in est.items()}); sys.exit(1 if bad else 0)
+"""
+
+
+def estimate_task(kind, kw, route="dict"):
+    """BaseModel.estimate (dict route: symbolic ages; MultiIndex route with dictionary output: concrete unsorted / repeated ages, symbolic parameters):
+    exactly the requested ids (dict route: in the given order), rows aligned with the requested ages in the requested order."""
+    task = f"estimate[{cfg_name(kind, kw)}{',multiindex' if route != 'dict' else ''}]"
 
     def body():
         probe = build_model(kind, **kw)
@@ -332,7 +352,14 @@ def estimate_task(kind, kw):
             mk_call = lambda ip: {k: (v[0, 0] if k != "sources" else v[0]) for k, v in ip.items()}
             ips = {"subj-B": mk_call(ipB), "subj-A": mk_call(ipA)}
             tpts = {"subj-B": agesB, "subj-A": agesA}  # deliberately not sorted
-            est = m.estimate(tpts, ips)
+            if route == "dict":
+                est = m.estimate(tpts, ips)
+            else:
+                import pandas as pd
+
+                pairs = [("subj-A", _MI_AGES["subj-A"][0]), ("subj-B", _MI_AGES["subj-B"][0])] + [("subj-A", a) for a in _MI_AGES["subj-A"][1:]]
+                mi = pd.MultiIndex.from_tuples(pairs, names=["ID", "TIME"])
+                est = m.estimate(mi, ips, to_dataframe=False)
             mm = m.state["mixing_matrix"] if m.has_sources else None
             return m, ins, (ipA, ipB), (agesA, agesB), est, mm
 
@@ -342,23 +369,27 @@ def estimate_task(kind, kw):
             m, ins, (ipA, ipB), (agesA, agesB), est, mm = res
             d = m.dimension
             rec.obligations += 1
-            ok = list(est.keys()) == ["subj-B", "subj-A"] and est["subj-A"].shape == (2, d) and est["subj-B"].shape == (1, d)
+            if route == "dict":
+                ok = list(est.keys()) == ["subj-B", "subj-A"] and est["subj-A"].shape == (2, d) and est["subj-B"].shape == (1, d)
+            else:
+                ok = sorted(est.keys()) == ["subj-A", "subj-B"] and all(tuple(est[k_].shape) == (len(_MI_AGES[k_]), d) for k_ in _MI_AGES)
             if ok:
                 rec.discharged += 1
             else:
-                rec.violation_from_script("keys", "C09:estimate-keys", "sys.exit(1)\n", f"estimate keys/shapes wrong: {list(est.keys())}")
+                rec.violation_from_script("keys", "C09:estimate-keys", _MI_REPLAY if route != "dict" else "sys.exit(1)\n", f"estimate keys/shapes wrong: {list(est.keys())} {[tuple(v.shape) for v in est.values()]}")
                 continue
             mix = mm.sym if mm is not None else None
             lem = exp_log_axioms()
             for sid, ip, ages in (("subj-A", ipA, agesA), ("subj-B", ipB, agesB)):
                 allin = dict(ins)
                 allin.update(ip)
-                for j in range(ages.sym.shape[0]):
+                age_terms = [ages.sym[j] for j in range(ages.sym.shape[0])] if route == "dict" else [T.real_val(a) for a in _MI_AGES[sid]]
+                for j in range(len(age_terms)):
                     for k in range(d):
-                        cf, _ = closed_form(kind, allin, mix, 0, ages.sym[j], k)
+                        cf, _ = closed_form(kind, allin, mix, 0, age_terms[j], k)
                         got = est[sid][j, k]
                         got = got.term if isinstance(got, st.SymScalar) else T.real_val(got)
-                        rec.prove(f"{sid}[{j}][{k}]", got == cf, extra=lem + exp_log_axioms(), what="estimate row not aligned with its age / individual")
+                        rec.prove(f"{sid}[{j}][{k}]", got == cf, extra=lem + exp_log_axioms(), replay=(lambda m_: _MI_REPLAY) if route != "dict" else None, key="C09:estimate-alignment", what="estimate row not aligned with its age / individual")
             rec.end_path(c)
         rec.sample({"model": cfg_name(kind, kw), "timepoints": {"subj-B": "1 age", "subj-A": "2 ages"}})
         return rec.result()
@@ -374,6 +405,7 @@ def tasks(tier, seed=0):
         ts.append(("trajectory_task", dict(kind=kind, kw=kw, n_ages=2)))
     for kind, kw in KINDS["quick"][:3]:
         ts.append(("estimate_task", dict(kind=kind, kw=kw)))
+    ts.append(("estimate_task", dict(kind=KINDS["quick"][0][0], kw=KINDS["quick"][0][1], route="multiindex")))
     ts.append(("trajectory_task", dict(kind="logistic", kw=KINDS["quick"][0][1], n_ages=3)))
     if tier == "thorough":
         for kind, kw in kinds:
